@@ -159,6 +159,8 @@ func main() {
 		l := littleendian.Uint16ToBytes(uint16(v))
 		if len(l) != 2 || littleendian.BytesToUint16(l) != uint16(v) {
 			c.Violation("le16-roundtrip", v, "littleendian 16-bit round trip fails for %d", v)
+		} else if littleendian.BytesToUint16(l) != uint16(v) {
+			c.Violation("le16-decode-modifies-input", v, "littleendian 16-bit: decoding the same bytes a second time gives another value for %d", v)
 		}
 		if b[0] != b[1] && lead {
 			nontriv += 2
@@ -231,6 +233,8 @@ func main() {
 				b := e.enc(v)
 				if len(b) != 4 || e.dec(b) != v {
 					c.Violation(e.name+"-roundtrip", v, "%s round trip fails for %d", e.name, v)
+				} else if e.dec(b) != v {
+					c.Violation(e.name+"-decode-modifies-input", v, "%s: decoding the same bytes a second time gives %d instead of %d", e.name, e.dec(b), v)
 				}
 				if e.big && v != 1<<32-1 && bytes.Compare(b, e.enc(v+1)) >= 0 {
 					c.Violation(e.name+"-order", v, "%s: enc(%d) !< enc(%d)", e.name, v, v+1)
@@ -265,6 +269,8 @@ func main() {
 			encd[i] = b
 			if len(b) != 8 || e.dec(b) != v {
 				c.Violation(e.name+"-roundtrip", v, "%s round trip fails for %d", e.name, v)
+			} else if e.dec(b) != v {
+				c.Violation(e.name+"-decode-modifies-input", v, "%s: decoding the same bytes a second time gives %d instead of %d", e.name, e.dec(b), v)
 			}
 			if e.big && v != ^uint64(0) && bytes.Compare(b, e.enc(v+1)) >= 0 {
 				c.Violation(e.name+"-order", v, "%s: enc(%d) !< enc(%d)", e.name, v, v+1)
@@ -322,7 +328,20 @@ func main() {
 		c.Parallel(len(seqs), func(i int) {
 			var me dag.MutableBaseEvent
 			var ep, lp uint32
+			type builtRec struct {
+				be     *dag.BaseEvent
+				id     hash.Event
+				ep, lp uint32
+			}
+			var built []builtRec
 			for step, o := range seqs[i] {
+				// events built earlier are immutable: later changes of the mutable event must not show in them
+				for _, b := range built {
+					if b.be.ID() != b.id || uint32(b.be.Epoch()) != b.ep || uint32(b.be.Lamport()) != b.lp {
+						c.Violation("built-event-changed", fmt.Sprint(seqs[i]), "an event built earlier in history %v reports ID %s epoch/lamport %d/%d before step %d; it was built as %s %d/%d", seqs[i], b.be.ID().String(), b.be.Epoch(), b.be.Lamport(), step, b.id.String(), b.ep, b.lp)
+						break
+					}
+				}
 				switch o.k {
 				case 'e':
 					ep = o.v
@@ -338,6 +357,7 @@ func main() {
 					} else {
 						be := me.Build(tails[o.v])
 						id = be.ID()
+						built = append(built, builtRec{be, id, ep, lp})
 						if uint32(be.Epoch()) != ep || uint32(be.Lamport()) != lp {
 							c.Violation("id-history-fields", fmt.Sprint(seqs[i]), "built event reports epoch/lamport %d/%d, set to %d/%d (history %v, step %d)", be.Epoch(), be.Lamport(), ep, lp, seqs[i], step)
 						}
@@ -347,6 +367,12 @@ func main() {
 					if uint32(id.Epoch()) != ep || uint32(id.Lamport()) != lp || !bytes.Equal(id.Bytes()[8:], tails[o.v][:]) {
 						c.Violation("id-history-carry", fmt.Sprint(seqs[i]), "ID produced at step %d of history %v carries epoch/lamport %d/%d, the event has %d/%d at that moment", step, seqs[i], id.Epoch(), id.Lamport(), ep, lp)
 					}
+				}
+			}
+			for _, b := range built {
+				if b.be.ID() != b.id || uint32(b.be.Epoch()) != b.ep || uint32(b.be.Lamport()) != b.lp {
+					c.Violation("built-event-changed", fmt.Sprint(seqs[i]), "an event built in history %v reports ID %s epoch/lamport %d/%d at the end; it was built as %s %d/%d", seqs[i], b.be.ID().String(), b.be.Epoch(), b.be.Lamport(), b.id.String(), b.ep, b.lp)
+					break
 				}
 			}
 		})
